@@ -5,7 +5,7 @@
     accessors, clone_onto, region-to-region copies), so this layer models them, one definition per
     Rust [impl] block, and ties them back to the core with [own_index]. *)
 From FC Require Import Base.Res Index.IC Region.Region Region.Owned Region.Simple Region.Slice
-  Region.Collapse Region.Consec Region.Columns.
+  Region.Collapse Region.Consec Region.Columns Codec.Dictionary.
 Set Implicit Arguments.
 
 Record Items (R : Region) := {
@@ -313,3 +313,15 @@ Section ColumnsI.
 End ColumnsI.
 Arguments RC_region {R} cols is.
 Arguments RC_owned {R} l.
+
+(** * CodecRegion<DictionaryCodec, R>: read items are decoded byte slices *)
+Section CodecI.
+  Variable R : Region.
+  Variable to_b : val R -> bytes.
+  Variable of_b : bytes -> val R.
+  Definition codec_items : Items (codec_region R to_b of_b) :=
+    @Build_Items (codec_region R to_b of_b) bytes
+      (fun x i => read (codec_region R to_b of_b) x i)
+      (fun x => Ok x) (fun v => v) (fun x _ => Ok x)
+      (fun s x => push (codec_region R to_b of_b) s x).
+End CodecI.
